@@ -10,6 +10,7 @@ looked at (a dry run drops it).  Prints one JSON object: programs, failures [{pi
 """
 import json
 import os
+import signal
 import shutil
 import sys
 import tempfile
@@ -42,9 +43,12 @@ def main():
                     try:
                         old = sys.stdout
                         sys.stdout = devnull
+                        signal.signal(signal.SIGALRM, _alarm)
+                        signal.alarm(LIMIT)
                         try:
                             res = H.gen_program(pid, os.path.join(tmpdir, "src"), packages)
                         finally:
+                            signal.alarm(0)
                             sys.stdout = old
                         if res.failed:
                             out["failures"].append(dict(pid=pid, seed=sd, error=str(res.stats.get("error"))[-1500:]))
@@ -59,6 +63,17 @@ def main():
     finally:
         shutil.rmtree(bugs, ignore_errors=True)
     print("C18CLI " + json.dumps(out))
+
+
+LIMIT = int(os.environ.get("C18CLI_LIMIT", "150"))      # seconds of wall time per program (a program normally takes about one)
+
+
+class WorkLimit(Exception):
+    pass
+
+
+def _alarm(signum, frame):
+    raise WorkLimit("program not finished after %d s" % LIMIT)
 
 
 if __name__ == "__main__":
